@@ -93,6 +93,21 @@ class AxisChecker:
             o = self._param_order(node.id)
             if o:
                 return o
+        if isinstance(node, ast.Name) and node.id not in self.fn.params:
+            # a local bound once to an ordered expression
+            ds = [d for d in self.defs.get(node.id, [])
+                  if d.value is not None]
+            busy = self.__dict__.setdefault("_vo_busy", set())
+            if len(ds) == 1 and ds[0].index is None and not ds[0].elem and \
+                    ds[0].kind == "assign" and node.id not in busy and \
+                    len(self.defs.get(node.id, [])) == 1:
+                busy.add(node.id)
+                try:
+                    o = self.vec_order(ds[0].value)
+                finally:
+                    busy.discard(node.id)
+                if o in ("XYZ", "ZYX", "CRS"):
+                    return o
         if isinstance(node, ast.Attribute) and \
                 isinstance(node.value, ast.Name) and \
                 node.value.id == "self" and self.fn.cls is not None:
@@ -774,6 +789,43 @@ class AxisChecker:
                              "one in %s order: per-axis values are paired "
                              "with the wrong axis unless sizes are cubic"
                              % (ot[0], ot[1]), node=node)
+        # a sequence passed to a package function whose parameter carries a
+        # conventional order in its name (block_size, chunk_size, ... are
+        # (X, Y, Z)): the argument has to be in that order
+        if not getattr(self, "_depth", 0):
+            from .rules_more4 import resolve_pkg_call
+            h = resolve_pkg_call(self.fn, node)
+            if h is not None and h.key != self.fn.key:
+                ps = list(h.params)
+                if ps and ps[0] in ("self", "cls") and \
+                        isinstance(node.func, ast.Attribute):
+                    ps = ps[1:]
+                pairs = list(zip(ps, node.args)) + [
+                    (k.arg, k.value) for k in node.keywords if k.arg]
+                # parameters the callee only zips with each other are taken
+                # element by element: any order will do, as long as the
+                # arguments agree (checked where they are zipped)
+                allp = list(h.params)
+                zipped = set()
+                for i_, j_ in _paired_params(h):
+                    zipped |= {allp[i_], allp[j_]}
+                for pn, av in pairs:
+                    want = "XYZ" if pn in XYZ_VECTORS else \
+                        "CRS" if pn in CRS_VECTORS else None
+                    if want is None or isinstance(av, ast.Starred) or \
+                            pn in zipped:
+                        continue
+                    got = self.vec_order(av)
+                    if got not in ("XYZ", "ZYX", "CRS"):
+                        continue
+                    self.n += 1
+                    ok = got == want
+                    self.col.add(self.rule + ".arg-order", self.fn,
+                                 norm(node)[:80], ok, "" if ok else
+                                 "`%s` is in %s order and is passed for the "
+                                 "parameter `%s` of %s, which is in %s order"
+                                 % (norm(av), got, pn, h.qualname, want),
+                                 node=node)
         # reshape / moveaxis of arrays with known layout
         if isinstance(node.func, ast.Attribute) and node.func.attr == "reshape":
             args = node.args
